@@ -146,8 +146,9 @@ def binary_symplectic_product(matrix1, matrix2):
     :return: the symplectic product of these two matrices
     :rtype: int
     """
-    assert matrix1.shape[0] == matrix2.shape[0]
-    dim = matrix1.shape[0]
+    assert matrix1.shape[1] == matrix2.shape[1]
+    # the form acts on the 2n columns (x part | z part) of the matrices
+    dim = int(matrix1.shape[1] / 2)
     symplectic_p = np.block(
         [[np.zeros((dim, dim)), np.eye(dim)], [np.eye(dim), np.zeros((dim, dim))]]
     ).astype(int)
